@@ -978,7 +978,7 @@ def has_ignore_comment(source: str, rng: Range) -> bool:
     pattern = re.compile(r"#\s*pyrefact\s*:\s*(skip_file|ignore)")
 
     character_count = 0
-    for line in source.splitlines(keepends=True):
+    for line in split_lines(source):  # A form feed in a string does not end the line, or its comment
         line_start = character_count
         line_end = character_count = line_start + len(line)
 
